@@ -68,11 +68,17 @@ class Crash(BaseException):
 class Scratch:
     """Per-process scratch root; everything the sim writes lives here."""
     def __init__(self):
+        # a previous World of this process may have pointed tempfile at its
+        # (now deleted) private tmp directory
+        tempfile.tempdir = None
+        os.environ.pop('TMPDIR', None)
         self.root = tempfile.mkdtemp(prefix='vf-')
         self.templates = {}
         self.n = 0
 
     def cleanup(self):
+        tempfile.tempdir = None
+        os.environ.pop('TMPDIR', None)
         shutil.rmtree(self.root, ignore_errors=True)
 
     def template(self, shape):
